@@ -192,7 +192,7 @@ def _main(eng: Engine, tier: str, seed: int, opts: Any) -> int:
 
 	if os.environ.get('TRANPSIM_DEBUG'):
 		for res, v in violations:
-			log(f"  [debug] case {res.get('label')}: {v.get('class')} op={v.get('op_index')} {json.dumps(v.get('detail'), default=str)[:300]}")
+			log(f"  [debug] case {res.get('label')}: {v.get('class')} op={v.get('op_index')} {json.dumps(v.get("detail"), default=str)[:4000]}")
 	exit_code = 0
 	reported: set[str] = set()
 	for res, v in violations:
